@@ -34,7 +34,7 @@ CHECKS = {
     'C06': dict(
         technique=RM + 'reference-model monitor on polygons / mask / bounds / geometry + warning capture + in-situ contract on make_polygons_with_holes + reach monitor (both bounds branches of each topology class must be entered)',
         text='Bare geometry datasets in every coordinate layout the generators know (stored vs derived bounds, bounds/coordinates as variables or xarray coordinates, units/standard_name/axis identification, holes, bow-tie cells, masked node grids, all mesh encodings) are opened by the real code; every polygon, the validity mask, InvalidPolygonWarning, bounds and overall geometry are compared with the model.',
-        note=NOTE + 'Rings compared modulo start vertex and direction; stored 1-D bounds are contiguous; invalid cells are interior; meshes have no orphan nodes.', ref='DESIGN.md §5 C06'),
+        note=NOTE + 'Rings compared modulo start vertex and direction; stored 1-D bounds are contiguous; invalid cells are interior (bounds not asserted when one reaches outside the hull); meshes may carry orphan nodes; CF 1-D coordinates may be stored as integers / float32, CF 2-D longitude may be stored transposed.', ref='DESIGN.md §5 C06'),
     'C07': dict(
         technique=RM + 'exhaustive enumeration as workload for the mask primitives under in-situ icontract post-conditions (loop references) + end-to-end reference-model monitor on make_clip_mask + monotonicity monitor on recorded outputs + reach monitor',
         text='(i) every boolean array up to 4x4 (thorough; quick: up to 9 elements + random 4x4) through blur_mask (size 0..3), smear_mask, c_mask_from_centres, each call checked by a contract; (ii) make_clip_mask for buffers 0..3 over all conventions and ~14 geometry classes vs brute-force GEOS selection, own Chebyshev dilation / node-sharing rings / rank renumbering; (iii) enlarging geometry or buffer never unmarks.',
